@@ -987,3 +987,86 @@ func ruleResliceAppend(w *World, r *Report, rule string, pkgs ...string) int {
 	}
 	return n
 }
+
+// RECEIVER-WRITE-AT-RUNTIME: a method that can be called while the object is in use by several goroutines — the run
+// methods of components (anything reachable, through methods of the same receiver, from an exported method that takes
+// a context.Context or implements a module interface) — stores into a field of its receiver (or into a slice / map held
+// in one). Without a lock that is a data race the moment one instance serves two requests, which is how a component
+// inside a compiled graph is used.
+type recvWrite struct {
+	fn    *ssa.Function
+	in    ssa.Instruction
+	field *types.Var
+	kind  string
+}
+
+func receiverWrites(fn *ssa.Function) []recvWrite {
+	var out []recvWrite
+	if fn.Signature.Recv() == nil || len(fn.Params) == 0 {
+		return nil
+	}
+	recv := fn.Params[0]
+	if _, ok := recv.Type().Underlying().(*types.Pointer); !ok {
+		return nil
+	}
+	for _, fw := range fieldWrites(fn) {
+		if fw.field == nil {
+			continue
+		}
+		if paramRoot(fw.base, 0) == recv {
+			out = append(out, recvWrite{fn, fw.in, fw.field, fw.kind})
+		}
+	}
+	// append-to-field through a store of a slice: covered by the Store on the FieldAddr above
+	return out
+}
+
+// runMethodClosure: exported pointer-receiver methods that take a context.Context (the calling convention of every
+// component's run-time entry point) and the methods of the same receiver they call, transitively.
+func runMethodClosure(w *World, pkgs ...string) map[*ssa.Function][]*ssa.Function {
+	out := map[*ssa.Function][]*ssa.Function{}
+	for _, fn := range w.RepoFuncs(pkgs...) {
+		sig := fn.Signature
+		if sig.Recv() == nil || fn.Object() == nil || !fn.Object().Exported() || fn.Parent() != nil {
+			continue
+		}
+		if _, ok := sig.Recv().Type().Underlying().(*types.Pointer); !ok {
+			continue
+		}
+		hasCtx := false
+		for i := 0; i < sig.Params().Len(); i++ {
+			if sig.Params().At(i).Type().String() == "context.Context" {
+				hasCtx = true
+			}
+		}
+		if !hasCtx {
+			continue
+		}
+		seen := map[*ssa.Function]bool{fn: true}
+		work := []*ssa.Function{fn}
+		for len(work) > 0 {
+			f := work[0]
+			work = work[1:]
+			out[fn] = append(out[fn], f)
+			if len(f.Params) == 0 {
+				continue
+			}
+			recv := f.Params[0]
+			instrs(f, func(in ssa.Instruction) {
+				c, ok := in.(ssa.CallInstruction)
+				if !ok {
+					return
+				}
+				sc := staticCallee(c)
+				if sc == nil || !w.inRepo(sc) || sc.Signature.Recv() == nil || len(c.Common().Args) == 0 || c.Common().Args[0] != ssa.Value(recv) {
+					return
+				}
+				if !seen[sc] {
+					seen[sc] = true
+					work = append(work, sc)
+				}
+			})
+		}
+	}
+	return out
+}
